@@ -50,7 +50,12 @@ Inv_PubLinked ==
 \* ---- every equation lives in one function context
 CtxOf(e) == LET N == Names(e) IN IF N = {} THEN "" ELSE (CHOOSE n \in N : TRUE).ctx
 OneCtx(e) == \A n, m \in Names(e) : n.ctx = m.ctx
-Inv_OneContext == \A i \in Eqs : OneCtx(C.eqs[i]) \/ KnownCtxMix(Active, C.eqs[i])
+\* an equation that mixes two contexts (a sub-circuit body using a wire of its caller that was not passed as an argument) is
+\* allowed only if the proving step REPORTS it ("Inconsistent contexts") and does not complete the split
+Inv_OneContext == \A i \in Eqs : OneCtx(C.eqs[i]) \/ KnownCtxMix(Active, C.eqs[i]) \/ (C.ctxmix_reported /\ ~C.proved_split)
+\* ---- whatever per-function file exists names only context-free wires (nothing of another context leaks into a function's circuit)
+FileNames(f) == UNION {Names(C.fnfiles[f][i]) : i \in {j \in DOMAIN C.fnfiles[f] : C.fnfiles[f][j].t = "eq"}}
+Inv_FnFilesLocal == \A f \in DOMAIN C.fnfiles : \A n \in FileNames(f) : n.ctx = ""
 
 \* ---- splitting: the per-function file of f holds exactly the normalised equations and blocks of a call of f
 NormLC(lc) == [i \in DOMAIN lc |-> <<lc[i].c % P, lc[i].n.loc>>]
